@@ -200,7 +200,7 @@ static void enumerate(pbt::Runner &R) {
           n++; std::string e = check_long(q.first, q.second, upd, idx, &sig); if (!e.empty()) { if (R.report_enum_failure({}, sig, e, std::string(TN[q.first]) + " long message " + std::to_string(q.second))) return; } } }
     // giant single updates (quick: one of 2^30+ bytes for SHA-256 and SHA-512/128; thorough: every type, and 2^31+ / 2^32+ for SHA-256 and SHA-512)
     { std::vector<std::pair<int, uint64_t>> gm; uint64_t G = 1ull << 30;
-      if (!R.opt.tier) gm = {{1, G + 70001}, {3, G + 12345}}; else gm = {{0, G + 1}, {1, G + 70001}, {2, G + 4097}, {3, G + 12345}, {1, 2 * G + 5}, {2, 2 * G + 64}, {1, 4 * G + 9}, {2, 4 * G + 1}};
+      if (!R.opt.tier) gm = {{1, G + 70001}, {3, G + 12345}, {0, G / 2 + 4321}}; else gm = {{0, G / 2 + 4321}, {0, G + 1}, {1, G + 70001}, {2, G + 4097}, {3, G + 12345}, {1, 2 * G + 5}, {2, 2 * G + 64}, {1, 4 * G + 9}, {2, 4 * G + 1}};
       size_t idx = 0; for (auto &q : gm) { idx++; if (R.opt.tier && (idx % (size_t)std::max(1, R.opt.nproc)) != (size_t)R.opt.proc_index % (size_t)std::max(1, R.opt.nproc)) continue;
           n++; std::string e = check_giant(q.first, q.second, &sig); if (!e.empty()) { if (R.report_enum_failure({}, sig, e, std::string(TN[q.first]) + " giant update " + std::to_string(q.second))) return; } } }
     R.st.extra_evals += n; R.st.distinct_by_construction += n; R.st.exhaustive = true;
